@@ -104,7 +104,9 @@ pub fn prefix_replay(scn: &Scenario, n: u64) -> Option<Prefix> {
 pub fn stepwise(scn: &Scenario, n: u64) -> Option<Prefix> {
     let setup_ci = scn.calls.iter().position(|c| matches!(c, CallSpec::Setup { .. }))?;
     let mut s = scn.clone();
-    s.calls.truncate(setup_ci + 1);
+    // keep everything up to the first solve (setup, parameter assignments), then step
+    let first_solve = scn.calls.iter().position(|c| matches!(c, CallSpec::Solve { .. })).unwrap_or(setup_ci + 1);
+    s.calls.truncate(first_solve.max(setup_ci + 1));
     for _ in 0..n {
         s.calls.push(CallSpec::Solve { timeout_ns: 1_000_000_000_000, stalls: vec![Stall { at: Phase::Sample, nth: 1, ns: STALL_NS }] });
     }
@@ -114,6 +116,9 @@ pub fn stepwise(scn: &Scenario, n: u64) -> Option<Prefix> {
     let mut ok_at = vec![];
     let mut last_ci = setup_ci;
     for ci in setup_ci + 1..out.calls.len() {
+        if !matches!(s.calls[ci], CallSpec::Solve { .. }) {
+            continue;
+        }
         let c = &out.calls[ci];
         let Some(snap) = c.snap.clone() else { break };
         let Some(lo) = (c.ev_lo..c.ev_hi).find(|i| out.log[*i].phase() == Some(Phase::Sample)) else { break };
@@ -302,6 +307,16 @@ pub fn fixture(prop: &'static str, seed: u64, f: u64, kind: PlannerKind, alpha_s
             scn.worlds[0].obstacles.clear();
         }
     }
+    // a quarter of the fixtures assign the public parameter fields after setup (the constructor
+    // got another step, a goal bias of 0.5 and other radii)
+    if f % 4 == 1 {
+        let mut ctor = scn.planner.clone();
+        ctor.max_distance *= 0.37;
+        ctor.goal_bias = 0.5;
+        ctor.search_radius *= 2.1;
+        ctor.connection_radius *= 0.41;
+        scn.reconfigure_after_setup(ctor);
+    }
     scn.params.insert("obstacle_free".into(), if scn.worlds[0].obstacles.is_empty() { 1.0 } else { 0.0 });
     scn.family = format!("enumerated/{}", if scn.worlds[0].obstacles.is_empty() { "free" } else { "alphabet_world" });
     (scn, alpha)
@@ -358,6 +373,8 @@ struct Ctx<'a> {
     scn: &'a Scenario,
     pk: &'static str,
     w: usize,
+    /// planner parameters in force during the solve calls (constructor's, or assigned later)
+    pl: PlannerSpec,
 }
 
 impl Ctx<'_> {
@@ -372,7 +389,7 @@ impl Ctx<'_> {
         let g = &self.ev.geo;
         let ds: Vec<f64> = tree.iter().map(|n| g.d(&n.0, q)).collect();
         let dmin = ds.iter().cloned().fold(f64::INFINITY, f64::min);
-        let md = self.scn.planner.max_distance;
+        let md = self.pl.max_distance;
         let mut why = String::new();
         for (j, dj) in ds.iter().enumerate() {
             if *dj > dmin {
@@ -510,6 +527,12 @@ impl Check for TreeProp {
                 s.calls = vec![CallSpec::Setup { problem: 0 }, crate::checks::solve_budget(n)];
                 s.params.insert("bias_stats".into(), n as f64);
                 s.family = "goal_bias_stats".into();
+                // every other one: the bias is assigned after setup, the constructor got another
+                if (index / 25) % 2 == 1 {
+                    let mut ctor = s.planner.clone();
+                    ctor.goal_bias = if bias == 0.5 { 0.0 } else { 0.5 };
+                    s.reconfigure_after_setup(ctor);
+                }
                 return s;
             }
         }
@@ -605,6 +628,12 @@ impl Check for TreeProp {
             scn.sampling.script = script;
             scn.family = format!("{}+alphabet", scn.family);
         }
+        // an eighth of the scenarios assign the public parameter fields after setup (the
+        // constructor got other values: another step, goal bias, radius)
+        if rng.chance(0.125) {
+            let ctor = gen::gen_planner(&mut rng, kind, ext);
+            scn.reconfigure_after_setup(ctor);
+        }
         scn
     }
 
@@ -651,7 +680,7 @@ impl Check for TreeProp {
             _ => {}
         }
         let ev = Eval::new(scn, &px.last);
-        let cx = Ctx { ev: &ev, scn, pk: scn.planner.kind.name(), w: scn.problems[0].world };
+        let cx = Ctx { ev: &ev, scn, pk: scn.planner.kind.name(), w: scn.problems[0].world, pl: scn.planner_at(scn.calls.len()) };
         let mut v: Vec<Violation> = vec![];
         let transitions = px.snaps.len().saturating_sub(1);
         rep.transitions = transitions as u64;
@@ -1024,7 +1053,7 @@ impl TreeProp {
         let sg = evs.iter().filter(|e| matches!(e, Ev::SG(_))).count() as f64;
         let su = evs.iter().filter(|e| matches!(e, Ev::SU(_))).count() as f64;
         let tot = sg + su;
-        let p = scn.planner.goal_bias;
+        let p = scn.planner_at(ci).goal_bias;
         let pk = scn.planner.kind.name();
         rep.nontrivial = tot >= (n as f64) * 0.9;
         rep.transitions = tot as u64;
@@ -1062,7 +1091,7 @@ impl TreeProp {
         let evs: Vec<&Ev> = px.last.log[lo..hi].iter().filter(|e| e.phase().is_some()).collect();
         let acc_iter: Vec<&St> = evs.iter().filter_map(|e| if let Ev::Valid(s, true) = e { Some(s) } else { None }).collect();
         let free = cx.scn.worlds[cx.w].obstacles.is_empty() && bounds_convex(&cx.scn.space);
-        let r = cx.scn.planner.search_radius;
+        let r = cx.pl.search_radius;
         if t1.len() == t0.len() {
             if t0 != t1 {
                 return Err(viol("C17", sig("changed_without_new_node"), format!("iteration {it}: no node was added but the tree changed")));
